@@ -16,7 +16,7 @@ class Eng(prod.PRODEngine):
 
 
 def shard(ctx):
-    drive(ctx, Eng, ctx.n(16 * 80, 16 * 4000), min_steps=8, max_steps=70, props={"C19"})
+    drive(ctx, Eng, ctx.n(16 * 250, 16 * 5000), min_steps=8, max_steps=70, props={"C19"})
 
 
 def replay(case, ctx):
